@@ -2,9 +2,17 @@
 //!   persistcheck check <ID> <quick|thorough>
 //!   persistcheck replay <path>
 
+mod alloc;
+mod common;
+mod iso;
 mod c18;
+mod roundtrip;
+mod spaces;
 mod c19;
 mod c20;
+
+#[global_allocator]
+static GLOBAL: alloc::Counting = alloc::Counting;
 
 fn usage() -> ! {
     eprintln!("usage: persistcheck check <C18|C19|C20> <quick|thorough> | persistcheck replay <path>");
@@ -61,6 +69,23 @@ fn main() {
             }
         },
         "replay" if args.len() >= 3 => replay(&args[2]),
+        // child process of C20: persistcheck worker C20 <tier> <from> <to> <fast|mark>
+        "worker" if args.len() >= 7 => {
+            let (Ok(from), Ok(to)) = (args[4].parse::<u64>(), args[5].parse::<u64>()) else { usage() };
+            match c20::C20::new(&args[3]) {
+                Ok(sp) => {
+                    let rc = iso::worker_main(&sp, from, to, args[6] == "mark");
+                    common::cleanup();
+                    rc
+                }
+                Err(e) => {
+                    eprintln!("worker: {}", e);
+                    2
+                }
+            }
+        }
+        // development aid: persistcheck probe <format|all> <sql>…  (round-trips the resulting database)
+        "probe" if args.len() >= 4 => c18::probe(&args[2], &args[3..]),
         _ => usage(),
     };
     std::process::exit(code);
